@@ -174,6 +174,16 @@ func (s *server) acceptLoop() {
 		}
 		s.wg.Add(1)
 		s.mu.Unlock()
+		for _, a := range s.sc.Accept {
+			if a.N == idx {
+				s.busy.Add(1)
+				closed := s.perform(c, idx, nil, a.Acts)
+				s.busy.Add(-1)
+				if closed {
+					break
+				}
+			}
+		}
 		go s.handle(c, idx)
 	}
 }
@@ -391,6 +401,18 @@ func (s *server) react(c net.Conn, idx int, req *base.Request) bool {
 	if r := s.sc.reaction(string(req.Method), occ, n); r != nil {
 		acts = r.Acts
 	}
+	_ = newest
+	return s.perform(c, idx, req, acts)
+}
+
+// perform executes actions on a connection (req == nil: not in reaction to a request).
+func (s *server) perform(c net.Conn, idx int, req *base.Request, acts []Action) bool {
+	s.mu.Lock()
+	newest := idx == s.nconn
+	s.mu.Unlock()
+	if req == nil {
+		req = &base.Request{Method: base.Options, Header: base.Header{}}
+	}
 	parseable := true
 	write := func(b []byte) {
 		c.SetWriteDeadline(time.Now().Add(2 * time.Second))
@@ -434,6 +456,8 @@ func (s *server) react(c net.Conn, idx int, req *base.Request) bool {
 			}
 		case "sleep":
 			time.Sleep(time.Duration(a.Ms) * time.Millisecond)
+		case "udp":
+			s.sendUDP(a.Ch, a.Payload)
 		case "close":
 			s.killer.Store(true)
 			c.Close()
@@ -448,6 +472,16 @@ func (s *server) react(c net.Conn, idx int, req *base.Request) bool {
 		}
 	}
 	return false
+}
+
+// sendUDP sends a datagram from the announced server port to the client port of the first media.
+func (s *server) sendUDP(which int, payload []byte) {
+	s.udpMu.Lock()
+	defer s.udpMu.Unlock()
+	if len(s.clientPorts) == 0 || s.udp[0] == nil || which < 0 || which > 1 {
+		return
+	}
+	s.udp[which].WriteToUDP(payload, &net.UDPAddr{IP: net.IPv4(127, 0, 0, 1), Port: s.clientPorts[0][which]}) //nolint:errcheck
 }
 
 func (s *server) killerIf(b bool) {
